@@ -102,10 +102,48 @@ FILLS = [0, 3, -2, 2.5, True, ("float32", 1.5), ("int8", 7), 1j, ("uint8", 200),
 # chunk specifications
 # ---------------------------------------------------------------------------------------------
 
-def _spec(rng, shape, kinds=("int", "tuple", "auto", "-1", "mixed", "explicit", "explicit")):
+def _irr3(rng, n):
+    """explicit irregular chunking of one axis with >= 3 blocks whose block sizes are not 'equal with a short last one':
+    a short block sits before a longer one (needs n >= 4)"""
+    if n < 4:
+        return list(A.rand_comp(rng, n))
+    for _ in range(20):
+        k = rng.randint(2, min(n - 1, 5))
+        cuts = sorted(rng.sample(range(1, n), k))
+        b = [0] + cuts + [n]
+        c = [y - x for x, y in zip(b, b[1:])]
+        if _is_irr3(c):
+            return c
+    return [1, n - 3, 2]
+
+
+def _is_irr3(c):
+    """>= 3 blocks and the layout is not what an int chunk size gives (all equal, last one shorter or equal)"""
+    c = list(c)
+    return len(c) >= 3 and (len(set(c[:-1])) > 1 or c[-1] > c[0])
+
+
+def _spec(rng, shape, kinds=("int", "tuple", "auto", "-1", "mixed", "explicit", "explicit", "irr3", "bytes", "dict")):
     shape = tuple(shape)
     kind = rng.choice(kinds)
     mx = max(shape) if shape else 1
+    if kind == "irr3":
+        if not shape:
+            kind = "explicit"
+        else:
+            v = [list(c) for c in A.rand_chunks(rng, shape)]
+            ax = max(range(len(shape)), key=lambda a: (shape[a], rng.random()))
+            v[ax] = _irr3(rng, shape[ax])
+            return {"t": "explicit", "v": v}
+    if kind == "bytes":
+        # a size in bytes ("16 B"): every axis is chosen by dask from the byte budget (documented chunks form)
+        return {"t": "bytes", "v": rng.choice((8, 16, 24, 32, 64, 100, 256, 1024))}
+    if kind == "dict":
+        # {axis: block size}; axes that are left out are not split
+        if not shape:
+            return {"t": "dict", "v": []}
+        axes = [a for a in range(len(shape)) if rng.random() < 0.7] or [rng.randrange(len(shape))]
+        return {"t": "dict", "v": [[a, rng.choice((rng.randint(1, max(shape[a], 1) + 1), -1))] for a in axes]}
     if kind == "int":
         return {"t": "int", "v": rng.randint(1, mx + 1)}
     if kind == "tuple":
@@ -129,6 +167,10 @@ def _chunks_arg(spec):
         return tuple(spec["v"])
     if t == "explicit":
         return tuple(tuple(c) for c in spec["v"])
+    if t == "bytes":
+        return "%d B" % spec["v"]
+    if t == "dict":
+        return {int(a): c for a, c in spec["v"]}
     raise AssertionError(t)
 
 
@@ -180,16 +222,30 @@ def cases(tier, seed):
             d.update({"start": _num(rng, frac), "stop": _num(rng, frac), "num": num, "endpoint": rng.random() < 0.6,
                       "retstep": rng.random() < 0.3, "dtype": rng.choice((None, None, "float64", "float32", "int64", "complex128")),
                       "chunks": _spec(rng, (num,))})
+            if rng.random() < 0.15:
+                # NumPy scalars as start / stop (their type takes part in NumPy's result dtype)
+                d["argt"] = [rng.choice(_NPT_FLOAT if isinstance(d[k], float) else _NPT_INT + _NPT_FLOAT) if rng.random() < 0.8 else None
+                             for k in ("start", "stop")]
+            if rng.random() < 0.02:
+                # a long axis: blocks of more than 255 elements, >= 3 irregular blocks
+                num = rng.randint(300, 900)
+                d.update({"num": num, "chunks": _spec_long(rng, num)})
         elif op == "eye":
-            N = rng.choice((0, 1, 2, 3, 4, 5, 6, 7))
-            M = rng.choice((None, None, N, rng.randint(0, 8), rng.randint(0, 8)))
-            d.update({"N": N, "M": M, "k": rng.choice((0, 0, 0, 1, -1, 2, -2, 3, -5, 9)), "dtype": rng.choice(DT),
-                      "chunks": _spec(rng, (max(N, M or 0),), kinds=("int", "int", "int", "auto", "-1"))})
+            N = rng.choice((0, 1, 2, 3, 4, 5, 6, 7, 9, 11, 12))
+            M = rng.choice((None, None, N, rng.randint(0, 8), rng.randint(0, 8), rng.randint(0, 13)))
+            d.update({"N": N, "M": M, "k": rng.choice((0, 0, 0, 1, -1, 2, -2, 3, -3, -5, 5, 9)), "dtype": rng.choice(DT),
+                      "chunks": _spec(rng, (max(N, M or 0),), kinds=("int", "int", "int", "int", "auto", "-1", "bytes"))})
+            if rng.random() < 0.012:
+                d.update(_gen_large2d(rng, tri=False))
         elif op == "tri":
             N = rng.choice((0, 1, 2, 3, 4, 5, 6, 7))
             M = rng.choice((None, None, N, rng.randint(0, 8), rng.randint(0, 8)))
             d.update({"N": N, "M": M, "k": rng.choice((0, 0, 0, 1, -1, 2, -2, 3, -5, 9)), "dtype": rng.choice(DT),
                       "chunks": _spec(rng, (N, N if M is None else M))})
+            if rng.random() < 0.25:
+                d["like"] = rng.choice(("np", "da"))
+            if rng.random() < 0.012:
+                d.update(_gen_large2d(rng, tri=True))
         elif op == "diag":
             if rng.random() < 0.5:
                 shape = (rng.choice((0, 1, 2, 3, 4, 5, 6, 7)),)
@@ -209,19 +265,28 @@ def cases(tier, seed):
             ax2 = rng.choice([a for a in range(-nd, nd) if a % nd != ax1 % nd])
             d.update({"shape": list(shape), "offset": rng.choice((0, 0, 1, -1, 2, -2, 4, -6)), "axis1": ax1, "axis2": ax2,
                       "dtype": rng.choice(A.NUMERIC), "c": [list(c) for c in A.rand_chunks(rng, shape)],
-                      "seed": rng.randrange(2 ** 31)})
+                      "seed": rng.randrange(2 ** 31), "in": rng.choice(("dask", "dask", "dask", "dask", "numpy"))})
         elif op == "indices":
             dims = A.rand_shape(rng, maxnd=3, maxlen=5, minnd=0 if rng.random() < 0.05 else 1)
-            kinds = ("tuple", "tuple", "auto", "mixed", "explicit", "explicit", "int") if dims else ("tuple", "auto")
+            kinds = ("tuple", "tuple", "auto", "mixed", "explicit", "explicit", "int", "irr3", "bytes", "dict") if dims else ("tuple", "auto")
             d.update({"dims": list(dims), "dtype": rng.choice((None, "int64", "int32", "float64", "uint8", "float32")),
                       "chunks": _spec(rng, dims, kinds=kinds)})
         elif op == "meshgrid":
             k = rng.choice((0, 1, 2, 2, 2, 3, 3))
             ins = []
             for _i in range(k):
-                ln = rng.choice((0, 1, 2, 3, 4, 5))
-                ins.append({"n": ln, "in": rng.choice(("dask", "dask", "numpy", "list")), "dtype": rng.choice(A.NUMERIC),
-                            "c": list(A.rand_comp(rng, ln)), "seed": rng.randrange(2 ** 31)})
+                ln = rng.choice((0, 1, 2, 3, 4, 5, 7))
+                it = {"n": ln, "in": rng.choice(("dask", "dask", "numpy", "list")), "dtype": rng.choice(A.NUMERIC),
+                      "c": list(A.rand_comp(rng, ln)), "seed": rng.randrange(2 ** 31)}
+                u = rng.random()
+                if u < 0.12:
+                    # NumPy flattens n-d inputs: a 2-d input (dask or NumPy)
+                    shp = (rng.choice((1, 2, 3)), rng.choice((1, 2, 3)))
+                    it.update({"n": shp[0] * shp[1], "shape2": list(shp), "in": rng.choice(("dask", "dask", "numpy")),
+                               "c2": [list(c) for c in A.rand_chunks(rng, shp)]})
+                elif u < 0.2:
+                    it.update({"n": 1, "in": "scalar", "c": [1]})      # a Python scalar is a length-1 coordinate vector
+                ins.append(it)
             d.update({"ins": ins, "sparse": rng.random() < 0.4, "indexing": rng.choice(("xy", "ij"))})
         elif op == "fromfunction":
             shape = A.rand_shape(rng, maxnd=3, maxlen=5, minnd=1)
@@ -229,19 +294,30 @@ def cases(tier, seed):
                       "chunks": _spec(rng, shape)})
         elif op == "wrap":
             shape = A.rand_shape(rng, maxnd=3, maxlen=6)
-            form = rng.choice(("tuple", "tuple", "list", "int")) if len(shape) == 1 else rng.choice(("tuple", "tuple", "list"))
-            kinds = ("int", "tuple", "auto", "-1", "mixed", "explicit", "explicit") if shape else ("tuple", "auto")
+            forms = ("tuple", "tuple", "tuple", "list", "ndarray", "npint", "kw")
+            form = rng.choice(forms + ("int", "int")) if len(shape) == 1 else rng.choice(forms)
+            kinds = ("int", "tuple", "auto", "-1", "mixed", "explicit", "explicit", "irr3", "bytes", "dict") if shape else ("tuple", "auto")
             d.update({"fn": rng.choice(("ones", "zeros", "full", "full", "empty")), "shape": list(shape), "shape_form": form,
                       "dtype": rng.choice(DT), "fill": rng.randrange(len(FILLS)), "chunks": _spec(rng, shape, kinds=kinds)})
+            if rng.random() < 0.25:
+                # meta= (documented by the backend entry point): a zero-size NumPy array; its dtype must not leak into the result
+                d["meta"] = rng.choice(("same", "float32", "int16"))
         else:  # like
             shape = A.rand_shape(rng, maxnd=3, maxlen=6)
             nshape = None
             if rng.random() < 0.3:
                 nshape = list(A.rand_shape(rng, maxnd=3, maxlen=6))
             tshape = tuple(nshape) if nshape is not None else shape
-            kinds = ("int", "tuple", "auto", "-1", "mixed", "explicit", "explicit") if tshape else ("tuple", "auto")
+            kinds = ("int", "tuple", "auto", "-1", "mixed", "explicit", "explicit", "irr3", "bytes", "dict") if tshape else ("tuple", "auto")
+            src = rng.choice(("dask", "dask", "dask", "dask", "numpy", "numpy", "list", "dask-nan"))
+            if src == "dask-nan" and (not shape or nshape is not None):
+                src = "dask"        # unknown chunk sizes need an axis to filter and the input's own shape
+            if src == "list" and 0 in shape:
+                src = "numpy"       # a nested list cannot express a zero-length axis next to other axes
+            if nshape is not None and len(nshape) == 1 and rng.random() < 0.4:
+                d["new_shape_int"] = True      # shape= given as an int
             d.update({"fn": rng.choice(("ones_like", "zeros_like", "full_like", "full_like", "empty_like")), "shape": list(shape),
-                      "in": rng.choice(("dask", "dask", "dask", "numpy")), "adtype": rng.choice(A.NUMERIC),
+                      "in": src, "adtype": rng.choice(A.NUMERIC),
                       "c": [list(c) for c in A.rand_chunks(rng, shape)], "dtype": rng.choice((None, None) + tuple(DT[1:])),
                       "fill": rng.randrange(len(FILLS)), "new_shape": nshape,
                       "chunks": _spec(rng, tshape, kinds=kinds) if (rng.random() < 0.5 or nshape is not None and rng.random() < 0.7) else None})
@@ -270,6 +346,13 @@ def _gen_arange(rng):
             else:
                 args[0] += off
                 args[1] += off
+        mixed = rng.random() < 0.15
+        if mixed:
+            # int and float arguments in one call (NumPy's result dtype follows the widest argument)
+            args = [(float(a) if isinstance(a, int) else (int(a) if float(a).is_integer() else a)) if rng.random() < 0.5 else a
+                    for a in args]
+            if len(args) == 3 and args[2] == 0:
+                continue
         isfrac = any(isinstance(a, float) and not float(a).is_integer() for a in args)
         isfloat = any(isinstance(a, float) for a in args)
         dtype = rng.choice((None, None, None, "float64", "float32", "int64", "int32", "uint8", "complex128"))
@@ -294,8 +377,80 @@ def _gen_arange(rng):
             a1 = args[0] if len(args) == 1 else args[1]
             if min(a0, a1, a0 + st * ln) < 0 or max(a0, a1, a0 + st * ln) > 255:
                 dtype = None
-        return {"args": args, "dtype": dtype, "chunks": _spec(rng, (ln,))}
+        out = {"args": args, "dtype": dtype, "chunks": _spec(rng, (ln,))}
+        u = rng.random()
+        if u < 0.12 and not big:
+            # NumPy scalar arguments (float32 is left out: dask derives block starts in the argument's precision, NumPy's
+            # float64 result is derived in double - differences at float32 resolution are not what the statement is about)
+            out["argt"] = [rng.choice(_NPT_INT if isinstance(a, int) else ("float64",)) if rng.random() < 0.8 else None for a in args]
+        if len(args) >= 2 and rng.random() < 0.15:
+            out["kwform"] = True          # arange(start, stop=..., step=...)
+        if rng.random() < 0.15:
+            out["like"] = rng.choice(("np", "da"))
+        if rng.random() < 0.02 and not big:
+            # a long axis: blocks of more than 255 elements, >= 3 irregular blocks
+            ln = rng.randint(300, 900)
+            if len(args) == 1:
+                out["args"] = [ln]
+            else:
+                st = args[2] if len(args) == 3 else 1
+                a0 = args[0]
+                a1 = a0 + ln * st
+                if len(np.arange(a0, a1, st)) != ln:
+                    a1 = a0 + (ln - 0.5) * st
+                out["args"] = [a0, a1] + ([st] if len(args) == 3 else [])
+                if len(np.arange(*out["args"])) != ln:
+                    out["args"] = [ln]
+                    out.pop("argt", None)
+                    out.pop("kwform", None)
+            if out["dtype"] in ("uint8", "float32", "int32"):
+                out["dtype"] = None
+            if any(isinstance(a, float) for a in out["args"]) and out["dtype"] in ("int64",):
+                out["dtype"] = None
+            out["chunks"] = _spec_long(rng, ln)
+            if "argt" in out:
+                out["argt"] = [t if (t is None or (t in _NPT_INT) == isinstance(a, int)) else None for t, a in zip(out["argt"], out["args"])]
+        return out
     return {"args": [5], "dtype": None, "chunks": {"t": "int", "v": 2}}
+
+
+_NPT_INT = ("int32", "int64")
+_NPT_FLOAT = ("float32", "float64")
+
+
+def _spec_long(rng, n):
+    """chunks of an axis of 300..900 elements: at least one block with more than 255 elements"""
+    u = rng.random()
+    if u < 0.25:
+        return {"t": "int", "v": rng.choice((256, 257, 300))}
+    if u < 0.35:
+        return {"t": rng.choice(("auto", "-1"))}
+    return {"t": "explicit", "v": [_long_explicit(rng, n)]}
+
+
+def _long_explicit(rng, n):
+    a = rng.randint(256, n - 2)         # n >= 258
+    rest = n - a
+    b = rng.randint(1, rest - 1)
+    c = [a, b, rest - b]
+    rng.shuffle(c)
+    return c
+
+
+def _gen_large2d(rng, tri):
+    """eye / tri with more than 255 rows: the diagonal crosses a block boundary beyond 255"""
+    N = rng.randint(260, 330)
+    M = rng.choice((None, None, rng.randint(260, 330), rng.randint(3, 40)))
+    k = rng.choice((0, 1, -1, 3, -3, 255, -255, 256, -256, 257, -257, N - 1, 1 - N))
+    if tri:
+        Me = N if M is None else M
+        if rng.random() < 0.5:
+            ch = {"t": "explicit", "v": [_long_explicit(rng, N), _long_explicit(rng, Me) if Me >= 260 and rng.random() < 0.5 else [Me]]}
+        else:
+            ch = {"t": "int", "v": rng.choice((100, 256, 257))}
+    else:
+        ch = {"t": "int", "v": rng.choice((100, 128, 256, 257, 300))}
+    return {"N": N, "M": M, "k": k, "chunks": ch, "dtype": rng.choice((None, "int64", "bool", "float32")), "blocks": False}
 
 
 # ---------------------------------------------------------------------------------------------
@@ -327,7 +482,9 @@ def _feat(case, extra=()):
             f.append("neg-step")
     elif op == "linspace":
         div = case["num"] - 1 if case["endpoint"] else case["num"]
-        if div <= 0:
+        if "float32" in (case.get("argt") or ()) and not case["dtype"]:
+            f.append("float32-scalar-arg&dtype=None")   # one mechanism whatever num / endpoint: the default dtype ignores the arguments
+        elif div <= 0:
             f.append("div<=0")   # NumPy: num - endpoint <= 0
         elif case["dtype"] in ("int64",):
             f.append("int-dtype")   # NumPy floors the float grid: ulp differences become off-by-one
@@ -438,6 +595,21 @@ def _exception(ctx, ex, case):
             ctx.exception(root, prefix="%s:%s" % (case["op"], _feat(case)))
 
 
+def _typed(vals, types):
+    """Python numbers, or NumPy scalars of the named types where the case asks for them"""
+    if not types:
+        return list(vals)
+    return [v if t is None else np.dtype(t).type(v) for v, t in zip(vals, types)]
+
+
+def _like_arg(kind):
+    import dask.array as da
+
+    if kind == "np":
+        return np.empty((0,), dtype="int8")
+    return da.from_array(np.empty((2,), dtype="int8"), chunks=1)
+
+
 def run_case(case, ctx, _only_build=False):
     import dask.array as da
 
@@ -458,8 +630,13 @@ def run_case(case, ctx, _only_build=False):
             try:
                 if op == "arange":
                     dk = {"dtype": case["dtype"]} if case["dtype"] else {}
-                    e = [np.arange(*case["args"], **dk)]
-                    call = lambda: [da.arange(*case["args"], **dk, **ck)]  # noqa: E731
+                    aa = _typed(case["args"], case.get("argt"))
+                    pos, akw = aa, {}
+                    if case.get("kwform") and len(aa) >= 2:
+                        pos, akw = aa[:1], dict(zip(("stop", "step"), aa[1:]))
+                    e = [np.arange(*pos, **akw, **dk)]
+                    lk = {"like": _like_arg(case["like"])} if case.get("like") else {}
+                    call = lambda: [da.arange(*pos, **akw, **dk, **lk, **ck)]  # noqa: E731
                     if e[0].dtype.kind in "fc":
                         exact = False
                         tol_n = max(len(e[0]), 1)
@@ -467,22 +644,28 @@ def run_case(case, ctx, _only_build=False):
                 elif op == "linspace":
                     dk = {"dtype": case["dtype"]} if case["dtype"] else {}
                     kw = dict(num=case["num"], endpoint=case["endpoint"], retstep=case["retstep"], **dk)
-                    ev = np.linspace(case["start"], case["stop"], **kw)
+                    l0, l1 = _typed([case["start"], case["stop"]], case.get("argt"))
+                    ev = np.linspace(l0, l1, **kw)
                     estep = None
                     if case["retstep"]:
                         ev, estep = ev
                     e = [ev]
 
                     def call():
-                        r = da.linspace(case["start"], case["stop"], **kw, **ck)
+                        r = da.linspace(l0, l1, **kw, **ck)
                         if case["retstep"]:
                             r, st = r
                             extra_pairs.append(("step", st, estep))
                         return [r]
+                    f32_args = "float32" in (case.get("argt") or ())
                     if ev.dtype.kind in "fc":
                         exact = False
                         tol_n = 4
                         tol_scale = max(abs(case["start"]), abs(case["stop"]))
+                        if f32_args and ev.dtype.itemsize // (2 if ev.dtype.kind == "c" else 1) > 4:
+                            # Calibration: with a float32 scalar argument NumPy derives the grid in float32 (NEP 50 weak
+                            # Python scalars) and casts afterwards: equal at float32 resolution is all that can be asked
+                            tol_n = 4 * 2 ** 29
                 elif op == "eye":
                     e = [np.eye(case["N"], case["M"], case["k"], **({"dtype": case["dtype"]} if case["dtype"] else {}))]
                     call = lambda: [da.eye(case["N"], M=case["M"], k=case["k"],  # noqa: E731
@@ -490,7 +673,8 @@ def run_case(case, ctx, _only_build=False):
                 elif op == "tri":
                     dk = {"dtype": case["dtype"]} if case["dtype"] else {}
                     e = [np.tri(case["N"], case["M"], case["k"], **dk)]
-                    call = lambda: [da.tri(case["N"], case["M"], case["k"], **dk, **ck)]  # noqa: E731
+                    lk = {"like": _like_arg(case["like"])} if case.get("like") else {}
+                    call = lambda: [da.tri(case["N"], case["M"], case["k"], **dk, **lk, **ck)]  # noqa: E731
                 elif op == "diag":
                     x = A.rand_data(case["seed"], case["shape"], case["dtype"], special=False)
                     e = [np.diag(x, case["k"])]
@@ -501,23 +685,26 @@ def run_case(case, ctx, _only_build=False):
                     x = A.rand_data(case["seed"], case["shape"], case["dtype"], special=False)
                     e = [np.diagonal(x, case["offset"], case["axis1"], case["axis2"])]
                     c = A.chunks_of_desc(case["c"])
-                    split_inputs = A.has_split(c)
-                    call = lambda: [da.diagonal(da.from_array(x, chunks=c), case["offset"], case["axis1"], case["axis2"])]  # noqa: E731
+                    split_inputs = A.has_split(c) and case.get("in", "dask") == "dask"
+                    call = lambda: [da.diagonal(da.from_array(x, chunks=c) if case.get("in", "dask") == "dask" else x,  # noqa: E731
+                                                case["offset"], case["axis1"], case["axis2"])]
                 elif op == "indices":
                     dk = {"dtype": case["dtype"]} if case["dtype"] else {}
                     e = [np.indices(tuple(case["dims"]), **dk)]
                     call = lambda: [da.indices(tuple(case["dims"]), **dk, **ck)]  # noqa: E731
                 elif op == "meshgrid":
-                    xs = [A.rand_data(i["seed"], (i["n"],), i["dtype"], special=False) for i in case["ins"]]
+                    xs = [A.rand_data(i["seed"], tuple(i.get("shape2") or (i["n"],)), i["dtype"], special=False) for i in case["ins"]]
+                    xs = [x_[0].item() if i["in"] == "scalar" else x_ for i, x_ in zip(case["ins"], xs)]
                     e = list(np.meshgrid(*xs, sparse=case["sparse"], indexing=case["indexing"]))
-                    split_inputs = any(i["in"] == "dask" and len(i["c"]) > 1 for i in case["ins"])
+                    split_inputs = any(i["in"] == "dask" and (len(i["c"]) > 1 if not i.get("shape2") else A.has_split(i["c2"]))
+                                       for i in case["ins"])
 
                     def call():
                         ins = []
                         for i, x_ in zip(case["ins"], xs):
                             if i["in"] == "dask":
-                                ins.append(da.from_array(x_, chunks=(tuple(i["c"]),)))
-                            elif i["in"] == "numpy":
+                                ins.append(da.from_array(x_, chunks=A.chunks_of_desc(i["c2"]) if i.get("shape2") else (tuple(i["c"]),)))
+                            elif i["in"] in ("numpy", "scalar"):
                                 ins.append(x_)
                             else:
                                 ins.append(x_.tolist())
@@ -533,19 +720,35 @@ def run_case(case, ctx, _only_build=False):
                     call = lambda: [da.fromfunction(f, shape=tuple(case["shape"]), **dk, **ck, **fk)]  # noqa: E731
                 elif op == "wrap":
                     shp = tuple(case["shape"])
-                    if case["shape_form"] == "list":
+                    sform = case["shape_form"]
+                    if sform == "list":
                         shp = list(shp)
-                    elif case["shape_form"] == "int":
+                    elif sform == "int":
                         shp = shp[0]
+                    elif sform == "ndarray":
+                        shp = np.array(shp, dtype="int64")
+                    elif sform == "npint":
+                        shp = tuple(np.int64(v) if i % 2 == 0 else np.int32(v) for i, v in enumerate(shp))
                     dk = {"dtype": case["dtype"]} if case["dtype"] else {}
                     fn = case["fn"]
+                    mk = {}
+                    if case.get("meta"):
+                        mdt = case["meta"] if case["meta"] != "same" else (case["dtype"] or "float64")
+                        mk = {"meta": np.empty((0,) * len(case["shape"]), dtype=mdt)}
+                    eshp = tuple(case["shape"])
                     if fn == "full":
                         fv = _fill(case["fill"])
-                        e = [np.full(shp, fv, **dk)]
-                        call = lambda: [da.full(shp, fv, **dk, **ck)]  # noqa: E731
+                        e = [np.full(eshp, fv, **dk)]
+                        if sform == "kw":
+                            call = lambda: [da.full(shape=shp, fill_value=fv, **dk, **mk, **ck)]  # noqa: E731
+                        else:
+                            call = lambda: [da.full(shp, fv, **dk, **mk, **ck)]  # noqa: E731
                     else:
-                        e = [getattr(np, fn)(shp, **dk)]
-                        call = lambda: [getattr(da, fn)(shp, **dk, **ck)]  # noqa: E731
+                        e = [getattr(np, fn)(eshp, **dk)]
+                        if sform == "kw":
+                            call = lambda: [getattr(da, fn)(shape=shp, **dk, **mk, **ck)]  # noqa: E731
+                        else:
+                            call = lambda: [getattr(da, fn)(shp, **dk, **mk, **ck)]  # noqa: E731
                 else:  # like
                     x = A.rand_data(1, case["shape"], case["adtype"], special=False)
                     c = A.chunks_of_desc(case["c"])
@@ -553,13 +756,31 @@ def run_case(case, ctx, _only_build=False):
                     if case["dtype"]:
                         kw["dtype"] = case["dtype"]
                     if case["new_shape"] is not None:
-                        kw["shape"] = tuple(case["new_shape"])
+                        kw["shape"] = case["new_shape"][0] if case.get("new_shape_int") else tuple(case["new_shape"])
                     fn = case["fn"]
-                    split_inputs = case["in"] == "dask" and A.has_split(c) and case["new_shape"] is None and spec is None
+                    src = case["in"]
+                    split_inputs = src in ("dask", "dask-nan") and A.has_split(c) and case["new_shape"] is None and spec is None
                     pre = (_fill(case["fill"]),) if fn == "full_like" else ()
-                    e = [getattr(np, fn)(x, *pre, **kw)]
-                    call = lambda: [getattr(da, fn)(da.from_array(x, chunks=c) if case["in"] == "dask" else x,  # noqa: E731
-                                                    *pre, **kw, **ck)]
+                    xe = x
+                    if src == "dask-nan":
+                        # an input with unknown chunk sizes: rows selected by a dask boolean mask (*_like goes through map_blocks)
+                        keep = (np.arange(x.shape[0]) % 3) != 1
+                        xe = x[keep]
+                    e = [getattr(np, fn)(xe, *pre, **kw)]
+
+                    def call():
+                        if src == "dask":
+                            a_ = da.from_array(x, chunks=c)
+                        elif src == "dask-nan":
+                            a_ = da.from_array(x, chunks=c)[da.from_array(keep, chunks=(c[0],))]
+                        elif src == "list":
+                            a_ = x.tolist()
+                        else:
+                            a_ = x
+                        return [getattr(da, fn)(a_, *pre, **kw, **ck)]
+                    if src == "list":
+                        # a list is re-inferred from Python scalars by both libraries
+                        e = [getattr(np, fn)(x.tolist(), *pre, **kw)]
             except Exception as ex:  # noqa: BLE001
                 ctx.reject("numpy: %s: %s" % (type(ex).__name__, ex))
                 return
@@ -616,12 +837,14 @@ def run_case(case, ctx, _only_build=False):
             for name, got, exp in extra_pairs:
                 ctx.count("retstep_compared")
                 g, x_ = float(got), float(exp)
-                ok = (math.isnan(g) and math.isnan(x_)) or abs(g - x_) <= 8 * np.finfo(float).eps * max(abs(x_), 1e-300)
+                eps_ = np.finfo("float32" if "float32" in (case.get("argt") or ()) else "float64").eps
+                ok = (math.isnan(g) and math.isnan(x_)) or abs(g - x_) <= 8 * eps_ * max(abs(x_), 1e-300)
                 if not ok:
                     ctx.violation("%s:%s:%s" % (op, _feat(case), name), "retstep %r, NumPy %r" % (g, x_))
     ctx.nontrivial = split_inputs or any(A.has_split(r.chunks) for r in rs)
     if spec:
         ctx.distinct("chunk_spec_kinds", (op, spec["t"]))
+    _count_classes(ctx, case, rs)
     ctx.sample = {"op": op, "chunks": [str(r.chunks) for r in rs][:3], "dtype": str(np.asarray(rvs[0]).dtype) if rvs else None}
     # ---- sibling facet: the same creation call with ONE other argument (k, dtype, endpoint, fill value, stop, ...) must
     # not share keys with this one.  empty / empty_like hold uninitialised memory: no values to compare.
@@ -634,6 +857,48 @@ def run_case(case, ctx, _only_build=False):
             S.check(ctx, op if op not in ("wrap", "like") else case["fn"], param, tuple(rs),
                     (lambda: tuple(run_case(c2, Ctx(c2), _only_build=True) or ())), va=tuple(rvs),
                     describe={k: v for k, v in c2.items() if case.get(k) != v})
+
+
+def _count_classes(ctx, case, rs):
+    """Input classes of the parameter audit (each has a floor: a generator change that loses a class is INCONCLUSIVE)"""
+    op = case["op"]
+    spec = case.get("chunks")
+    known = [[c for c in cs if c == c] for r in rs for cs in r.chunks]
+    if any(_is_irr3(cs) for cs in known):
+        ctx.count("layout_irregular_ge3_blocks")
+        ctx.distinct("irregular3_ops", op if op not in ("wrap", "like") else case["fn"])
+    if any(c > 255 for cs in known for c in cs):
+        ctx.count("layout_block_over_255")
+    if spec and spec["t"] in ("bytes", "dict"):
+        ctx.count("chunks_" + spec["t"])
+    if case.get("argt") and any(case["argt"]):
+        ctx.count("args_numpy_scalars")
+    if op == "arange":
+        a = case["args"]
+        if len({isinstance(v, float) for v in a}) == 2:
+            ctx.count("arange_mixed_int_float")
+        if case.get("kwform") and len(a) >= 2:
+            ctx.count("arange_keyword_form")
+        if len(a) == 3 and a[2] < 0:
+            ctx.count("arange_negative_step")
+    if case.get("like") and op in ("arange", "tri"):
+        ctx.count("like_argument")
+    if op == "wrap":
+        if case.get("meta"):
+            ctx.count("wrap_meta_argument")
+        if case["shape_form"] in ("ndarray", "npint", "kw"):
+            ctx.count("wrap_shape_form_" + case["shape_form"])
+    if op == "like":
+        if case["in"] in ("list", "dask-nan"):
+            ctx.count("like_input_" + case["in"])
+        if case.get("new_shape_int"):
+            ctx.count("like_shape_int")
+    if op == "diagonal" and case.get("in") == "numpy":
+        ctx.count("diagonal_numpy_input")
+    if op == "meshgrid" and any(i.get("shape2") or i["in"] == "scalar" for i in case["ins"]):
+        ctx.count("meshgrid_2d_or_scalar_input")
+    if op in ("eye", "tri", "diag") and case["k"] < 0:
+        ctx.count("negative_k")
 
 
 def _other_dtype(srng, cur, pool=("int64", "int32", "float64", "float32", "complex128", "uint8")):
